@@ -287,6 +287,13 @@ func roundtripPlan(sig, tier string) []Unit {
 	for _, h := range emptyRequestHistories(sig) {
 		units = append(units, Unit{Opts: def, Mon: mon, Tag: "empty-requests", History: h})
 	}
+	// the largest in-domain batches (65,535 parents of each kind), as the first batch of a
+	// stream (always rebuilt at least once) and as a later batch that adds a column
+	for _, k := range []string{"items", "resources", "scopes"} {
+		big := Letter{Sig: sig, Big: &Big{Kind: k, N: 65535}}
+		units = append(units, Unit{Opts: def, Mon: mon, Tag: "idwidth-in-domain", History: []Letter{big, alpha[1]}},
+			Unit{Opts: def, Mon: mon, Tag: "idwidth-in-domain", History: []Letter{alpha[0], big, alpha[2]}})
+	}
 	// one key, a different value type under each parent
 	{
 		ml := mixLetters(sig, 1)
